@@ -36,7 +36,7 @@ VARIABLES q, fed, s, last, nlex, sealed
 vars == <<q, fed, s, last, nlex, sealed>>
 
 Cfg == [mode |-> Mode, lax |-> Lax, maxLine |-> MaxLine, maxField |-> MaxField, maxHeaders |-> MaxHeaders,
-        untilEof |-> UntilEof, withBody |-> WithBody, mutant |-> Mutant, devHeadSkip |-> FALSE]
+        untilEof |-> UntilEof, withBody |-> WithBody, mutant |-> Mutant, devHeadSkip |-> FALSE, declineUpgrade |-> FALSE]
 
 Lex == <<
     <<71, 69, 84, 32, 47, 32, 72, 84, 84, 80, 47, 49, 46, 49, 13, 10>>,   \*  1 'GET / HTTP/1.1\r\n' request line
